@@ -833,7 +833,40 @@ func auditFunc(c *Ctx, fn *ssa.Function, resid map[string]bool) []BoundsResult {
 				// the same site reached through a helper: the entry is stated in the caller's terms
 				reason, isRes = residualTable[shortFn(fn)+": "+siteKey(u, x, lo, hi, st.isIndex)]
 			}
-			if isRes {
+			if !isRes && lo != nil && lo.Op == "ite" && !st.isIndex {
+				// a lower bound chosen between two values (head := 1; if prefix { head = 2 }): each arm
+				// is judged on its own path; an arm that is not proved must be a site the table lists
+				// in the caller's terms, with the selector of the arm as an additional premise
+				arms := []struct {
+					c Ref
+					e *E
+				}{{lo.B, lo.Args[0]}, {u.bdd.Not(lo.B), lo.Args[1]}}
+				all, why2 := true, ""
+				for _, a := range arms {
+					rcA := u.bdd.And(rc, a.c)
+					if rcA == False {
+						continue
+					}
+					if okA, _ := proveSite(c, g, act, act.Fn, rcA, x, a.e, hi, st.isIndex); okA {
+						continue
+					}
+					rs, listed := residualTable[shortFn(fn)+": "+siteKey(u, x, a.e, hi, st.isIndex)]
+					if !listed {
+						all = false
+						break
+					}
+					why2 = rs
+				}
+				if all && why2 != "" {
+					reason, isRes = why2, true
+				} else if all {
+					ok2 = true
+				}
+			}
+			if ok2 {
+				r.Verdict = "lin"
+				r.Why = "each arm of the selected lower bound proved on its own path"
+			} else if isRes {
 				r.Verdict = "residual"
 				r.Why = reason
 			} else {
